@@ -22,9 +22,17 @@
    correspondence checks) commutes with every ECU renaming that is injective on the ids of the stream — proved
    outright from the model's definition, not assumed — and the anonymiser induces such a renaming below the
    capacity.  The real detector is additionally run on original vs anonymised streams by the harness
-   ("equiv" cases). *)
+   ("equiv" cases).
+
+   Part 4 (Plugins/MuniicCfg.v): a `process_msg` that panics.  The loop does not catch: the message in work and
+   every later one is lost.  MuniicPlugin's configuration-message recogniser (regex + three
+   `captures.get(k).unwrap()`) transcribed with a small regex matcher: with the regex of the source every group
+   takes part in every match, so the unwraps cannot fail; with an optional group they can. *)
 From Coq Require Import List NArith Bool.
+From Coq Require Strings.String.
+Import String.StringSyntax.
 From AdltV Require Import Base.Res Base.MachInt Plugins.Chain Plugins.ChainProofs Plugins.Anon Plugins.AnonProofs Plugins.AnonLc Plugins.Decoders Plugins.DecodersProofs Exec.C19.
+From AdltV Require Import Plugins.MuniicCfg Plugins.MuniicCfgProofs.
 From AdltV Require Lifecycle.Model Plugins.LcEquiv.
 Import ListNotations.
 Open Scope N_scope.
@@ -415,6 +423,95 @@ Proof.
   vm_compute. repeat split.
 Qed.
 
+(* ------------------------------------------------------------------ Part 4: a process_msg that panics; Muniic's config recogniser *)
+
+(* plugins_process_msgs does not catch a panic of process_msg.  If the run ended by a panic, the stream splits into
+   the messages before the fatal one — they were treated exactly as in a run over them alone — the fatal message and
+   the rest; nothing of the fatal message or of anything after it reaches the outflow, whatever follows *)
+Theorem C19_dead_plugin_loses_the_rest ps ms outs site :
+  rprocess ps ms = (outs, Some site) ->
+  exists pre m post, ms = pre ++ m :: post /\ rprocess ps pre = (outs, None) /\
+    forall post', rprocess ps (pre ++ m :: post') = (outs, Some site).
+Proof. exact (rprocess_dead ms ps outs site). Qed.
+
+(* plugins that do not panic on the states they reach: the loop returns; for total plugins it is the loop of Part 1
+   (so all of Part 1 applies to the delivered messages) *)
+Theorem C19_panic_free_chain_returns ps ms : Forall PanicFree ps -> snd (rprocess ps ms) = None.
+Proof. intros H. exact (rprocess_panic_free ms ps H). Qed.
+
+Theorem C19_total_plugins_same_loop ps ms : rprocess (map lift_plugin ps) ms = (snd (process ps ms), None).
+Proof. exact (rprocess_lift ms ps). Qed.
+
+(* the regex matcher: a capture group that is not below an optional takes part in every match *)
+Theorem C19_regex_mandatory_groups_participate r t c g :
+  rsearch r t = Some c -> In g (mand r) -> c g <> None.
+Proof. intros H Hin. exact (rsearch_sets r t c H g Hin). Qed.
+
+(* the regex of MuniicPlugin::from_json as the model has it: its source text, and all three groups mandatory *)
+Theorem C19_muniic_cfg_regex_pinned :
+  re_src cfg_re = bytes_of_string "Version: (\d+.\d+), git: (\w+), model hash: (\d+)" /\
+  mand cfg_re = [1; 2; 3]%nat.
+Proof. split; vm_compute; reflexivity. Qed.
+
+(* hence process_cfg_msg's three `captures.get(k).unwrap()` cannot fail: for every text, every state of the per-ECU
+   table and the warnings, every JSON configuration *)
+Theorem C19_muniic_cfg_no_panic known st ecu disp dbg ptext :
+  exists st', process_cfg (rsearch cfg_re) known st ecu disp dbg ptext = Ok st'.
+Proof. exact (process_cfg_ok _ known cfg_re_all_participate st ecu disp dbg ptext). Qed.
+
+(* the same for every regex all of whose matches have the three groups *)
+Theorem C19_muniic_cfg_no_panic_if_groups_participate regex known st ecu disp dbg ptext :
+  (forall t c, regex t = Some c -> c 1%nat <> None /\ c 2%nat <> None /\ c 3%nat <> None) ->
+  exists st', process_cfg regex known st ecu disp dbg ptext = Ok st'.
+Proof. intros H. exact (process_cfg_ok regex known H st ecu disp dbg ptext). Qed.
+
+(* MuniicPlugin::process_msg as a whole: it is the wrapper of Part 1 (configuration messages pass untouched) and
+   does not panic; alone in the loop it forwards every message of every stream once, in order *)
+Theorem C19_muniic_process_msg_is_wrapper known a disp dbg ptext st m :
+  exists st', muniic_process (rsearch cfg_re) known a disp dbg ptext st m = Ok (st', muniic_wrap a m).
+Proof. exact (muniic_process_ok _ known cfg_re_all_participate a disp dbg ptext st m). Qed.
+
+Theorem C19_muniic_forwards_every_message known ans disp dbg ptext ms st0 :
+  rprocess [muniic_rplugin (rsearch cfg_re) known ans disp dbg ptext st0] ms =
+  (map (fun m => fst (muniic_wrap (ans m) m)) ms, None).
+Proof. exact (muniic_rplugin_run _ known ans disp dbg ptext cfg_re_all_participate ms st0). Qed.
+
+(* with an optional group the same handler panics: the text matches, group 2 does not take part *)
+Theorem C19_muniic_cfg_optional_group_refuted :
+  re_src cfg_re_optional_git = bytes_of_string "Version: (\d+.\d+)(?:, git: (\w+))?, model hash: (\d+)" /\
+  exists t, forall known st ecu disp dbg,
+    process_cfg (rsearch cfg_re_optional_git) known st ecu disp dbg (Some t) = Panic (site_cfg_unwrap 2).
+Proof.
+  split; [vm_compute; reflexivity|].
+  exists (bytes_of_string "Version: 21.10, model hash: 2874425776"). intros known st ecu disp dbg.
+  unfold process_cfg.
+  assert (match rsearch cfg_re_optional_git (bytes_of_string "Version: 21.10, model hash: 2874425776") with
+          | Some c => match c 1%nat, c 2%nat with Some _, None => true | _, _ => false end
+          | None => false
+          end = true) as H by (vm_compute; reflexivity).
+  destruct (rsearch cfg_re_optional_git (bytes_of_string "Version: 21.10, model hash: 2874425776")) as [c|]; [|discriminate].
+  unfold get_unwrap. destruct (c 1%nat); [|discriminate]. destruct (c 2%nat); [discriminate|]. reflexivity.
+Qed.
+
+(* non-vacuity: a configuration message between two log messages.  With the regex of the source all three are
+   delivered and the table has the entry; with the optional group the loop dies at the second message *)
+Example C19_muniic_cfg_nonvacuous :
+  let cfgt := bytes_of_string "Version: 21.10, model hash: 2874425776" in
+  let cfgm t := M 1 2000 11 20 49 1 0 (Some (65, 1, 21, ctid_MDLT)) [] (Some t) 0 in
+  let m0 := M 0 1000 11 10 49 0 0 (Some (65, 1, 21, 31)) [] None 0 in
+  let m2 := M 2 3000 11 30 49 2 0 (Some (65, 1, 21, 31)) [] None 0 in
+  let plug re := muniic_rplugin (rsearch re) (fun _ => true) (fun _ => TNone) (fun _ => [69]) (fun _ => [69]) m_text
+                   {| s_cfgs := []; s_warns := []; s_gen := 1 |} in
+  rprocess [plug cfg_re] [m0; cfgm cfgt; m2] =
+    ([m0; cfgm cfgt; m2], None) /\
+  rprocess [plug cfg_re_optional_git] [m0; cfgm cfgt; m2] =
+    ([m0], Some (site_cfg_unwrap 2)) /\
+  option_map (fun st => map cfg_label (s_cfgs st))
+    (match process_cfg (rsearch cfg_re) (fun _ => true) {| s_cfgs := []; s_warns := []; s_gen := 1 |} 11 [69] [69]
+             (Some (bytes_of_string "x Version: 20.48, git: 12_a, model hash: 5 y")) with Ok st => Some st | _ => None end) =
+    Some [bytes_of_string "E: version:20.48, git:12_a, model_hash:5"].
+Proof. cbv zeta. repeat split; vm_compute; reflexivity. Qed.
+
 Print Assumptions C19_frame_meaning.
 Print Assumptions C19_chain_conservative.
 Print Assumptions C19_chain_conservative_fields.
@@ -451,3 +548,14 @@ Print Assumptions C19_anon_collisions_as_stated.
 Print Assumptions C19_collisions_meaning.
 Print Assumptions C19_lead3_examples.
 Print Assumptions C19_anon_above_capacity_nonvacuous.
+Print Assumptions C19_dead_plugin_loses_the_rest.
+Print Assumptions C19_panic_free_chain_returns.
+Print Assumptions C19_total_plugins_same_loop.
+Print Assumptions C19_regex_mandatory_groups_participate.
+Print Assumptions C19_muniic_cfg_regex_pinned.
+Print Assumptions C19_muniic_cfg_no_panic.
+Print Assumptions C19_muniic_cfg_no_panic_if_groups_participate.
+Print Assumptions C19_muniic_process_msg_is_wrapper.
+Print Assumptions C19_muniic_forwards_every_message.
+Print Assumptions C19_muniic_cfg_optional_group_refuted.
+Print Assumptions C19_muniic_cfg_nonvacuous.
